@@ -9,7 +9,7 @@ TEXT = ("Every `range` over a map in the tool (typed inventory regenerated with 
         "(decide) makes a new raw range an undischarged obligation, no_ambient_inputs pins the complete list of os/time/rand/runtime/filepath calls, and "
         "key_order_params/services/meta/validate show compilation and validation see only the sorted traversal. Tied by running each configuration (valid, and "
         "invalid with >= 2 simultaneous defects of every class) N times in fresh processes, in different directories and environments, and under key permutations "
-        "of every mapping, comparing hashes of stdout and of the -o file.")
+        "of every mapping, comparing hashes of stdout and of the -o file. The site inventories are classified from the typed syntax tree (a map range that only stores under the range key, or only collects into a slice that is sorted afterwards; sorts by their ordering, whichever library function performs them), so behaviour-preserving restructuring keeps the facts while a raw range over a map or a non-plain comparator is a new fact.")
 TECHNIQUE = "Lean 4 permutation-invariance theorems per map-range site (List.Perm) + regenerated typed site inventory (decide) + repeated fresh-process runs and key-permutation runs with hash comparison"
 LEAN_PROPS = ["C08"]
 TRUSTED = ["the go/types inventory tool tools/sites", "determinism of the dependencies (yaml.v3, gofmt, goimports, gonum cycle enumeration + the runtime's sorting of cycles) is observed, not proved"]
